@@ -327,24 +327,36 @@ pub fn typed_programs_count(size: usize) -> usize {
 // groups in the conversion check have something to get wrong (equal prefixes, equal bodies, equal
 // sizes with different members).
 pub fn group_types(max_members: usize) -> Vec<String> {
+    group_types_with(max_members, false)
+}
+
+// With `arrows`, a member may also be a dependent function type into another member,
+// `(x : int) -> u`, so that unfolding substitutes members under a binder.
+pub fn group_types_with(max_members: usize, arrows: bool) -> Vec<String> {
     let names = ["t", "u", "w"];
     let bases = ["int", "bool", "int -> int"];
     let mut out = vec![];
     for n in 1..=max_members {
-        let choices = bases.len() + n - 1;
+        let choices = bases.len() + (n - 1) * if arrows { 2 } else { 1 };
         for code in 0..choices.pow(n as u32) {
-            // definition i: base (c < 3) or alias of the (c - 3)-th other member
+            // definition i: base (c < 3), alias of the (c - 3)-th other member, or a function type into it
             let mut c = code;
             let mut defs: Vec<Result<&str, usize>> = vec![];
+            let mut arrow = vec![];
             for i in 0..n {
                 let d = c % choices;
                 c /= choices;
-                defs.push(if d < bases.len() {
-                    Ok(bases[d])
+                let others: Vec<usize> = (0..n).filter(|j| *j != i).collect();
+                if d < bases.len() {
+                    defs.push(Ok(bases[d]));
+                    arrow.push(false);
+                } else if d < bases.len() + n - 1 {
+                    defs.push(Err(others[d - bases.len()]));
+                    arrow.push(false);
                 } else {
-                    let others: Vec<usize> = (0..n).filter(|j| *j != i).collect();
-                    Err(others[d - bases.len()])
-                });
+                    defs.push(Err(others[d - bases.len() - (n - 1)]));
+                    arrow.push(true);
+                }
             }
             // acyclic?
             let cyclic = (0..n).any(|start| {
@@ -367,6 +379,7 @@ pub fn group_types(max_members: usize) -> Vec<String> {
                         names[i],
                         match defs[i] {
                             Ok(b) => b.to_owned(),
+                            Err(j) if arrow[i] => format!("(x{i} : int) -> {}", names[j]),
                             Err(j) => names[j].to_owned(),
                         }
                     )
@@ -448,6 +461,17 @@ pub fn type_pair_family(k: usize, tier: Tier) -> Vec<String> {
         for e1 in pool {
             for e2 in pool {
                 out.push(format!("(pp : ({kind}) -> type) => (mk : (nn : int) -> pp ({e1})) => (ww : pp ({e2}) = mk 3; 0)"));
+            }
+        }
+    }
+    // a constructor with two indexes: every argument of the spine has to be compared up to reduction
+    let ints = ["2", "(1 + 1)", "(z : int = 2; z)", "(if true then 2 else 3)", "3"];
+    for a1 in ints {
+        for b1 in ints {
+            for a2 in ints {
+                for b2 in ints {
+                    out.push(format!("(pp : int -> int -> type) => (mk : (nn : int) -> pp {a1} {b1}) => (ww : pp {a2} {b2} = mk 3; 0)"));
+                }
             }
         }
     }
